@@ -166,6 +166,9 @@ Proof.
   pose proof (H y (or_introl eq_refl)). assert (length l <= length (flat_map g l))%nat by (apply IH; intros; apply H; right; assumption). lia.
 Qed.
 
+Lemma lmax_le {A} (g : A -> nat) l n : (forall x, In x l -> (g x <= n)%nat) -> (VmValue.list_max (map g l) <= n)%nat.
+Proof. induction l as [|y l IH]; cbn; intro H; [lia|]. pose proof (H y (or_introl eq_refl)). unfold VmValue.list_max in IH. specialize (IH (fun x Hx => H x (or_intror Hx))). lia. Qed.
+
 Lemma list_max_in {A} (g : A -> nat) l x : In x l -> (g x <= list_max (map g l))%nat.
 Proof.
   induction l as [|y l IH]; cbn; [tauto|]. intros [->|H]; [lia|]. specialize (IH H). unfold list_max in IH. lia.
